@@ -208,6 +208,11 @@ fn cli_files(max_lines: usize) -> Vec<String> {
         cur = nxt;
     }
     all.push(String::new());
+    // one line longer than 65535 bytes made of short sentences (72,001 bytes: no byte-count limit
+    // of a reader falls on a character boundary), with and without its terminator
+    let long_line = format!("a{}", "東京都に行く。".repeat(72_000 / 21 + 1));
+    all.push(format!("{}\n", long_line));
+    all.push(format!("京都\n{}", long_line));
     all.sort();
     all.dedup();
     all
@@ -332,6 +337,11 @@ pub fn main(tier: Tier, replay: Option<String>) -> i32 {
                     }
                     if machinery.lock().unwrap().is_some() {
                         return;
+                    }
+                    // without sentence splitting a line beyond the input limit is rejected by the library:
+                    // what the tool does then is outside the statement
+                    if !f.split && content.lines().any(|l| l.len() > 49149) {
+                        continue;
                     }
                     std::fs::write(&input_path, content).expect("write input");
                     let expected = match cli_reference(dict, content, f) {
